@@ -132,6 +132,10 @@ def check(an, rep, tier):
     P.check_stop_writers(prog, rep, functions={'cross.cross',
                                                 'cross._func_eval',
                                                 'utils._info_appr'})
+    from .. import rules_proto as _RP
+    _callers = {f.qualname for f in prog.all_functions()
+                if f.module.name in ('cross',)}
+    _RP.check_param_forwarding(prog, rep, callers=_callers)
     rep.floor('S-ret', 20, 'return paths')
     rep.floor('S-tensordot', 4, 'folds')
     rep.floor('P-fresh-info', 3, 'info freshness')
